@@ -28,6 +28,7 @@ type PosR struct {
 	Emissions  int
 	Touched    bool // liquidity changed after creation (twins relation no longer applies)
 	BornSeq    int  // number of forfeit redistributions that had happened when the position was created
+	BornSwaps  int  // number of swaps that had happened when the position was created
 	Forfeited  bool // has claimed before meeting an uptime and thereby forfeited accrued incentives (by design)
 }
 
@@ -391,9 +392,9 @@ func (w *World) CheckC08(ctx sdk.Context, l *Ledger, fail func(a, s, d string), 
 	for i := range l.Pos {
 		for j := i + 1; j < len(l.Pos); j++ {
 			a, b := &l.Pos[i], &l.Pos[j]
-			// identical lifetime includes the order of events inside the birth block: a forfeit redistributed
-			// between the two creations reaches only the older one
-			if a.Lower != b.Lower || a.Upper != b.Upper || !a.Join.Equal(b.Join) || !a.Liq.Equal(b.Liq) || a.R.Touched || b.R.Touched || a.R.BornSeq != b.R.BornSeq {
+			// identical lifetime includes the order of events inside the birth block: a forfeit redistributed or a
+			// swap executed between the two creations reaches only the older one
+			if a.Lower != b.Lower || a.Upper != b.Upper || !a.Join.Equal(b.Join) || !a.Liq.Equal(b.Liq) || a.R.Touched || b.R.Touched || a.R.BornSeq != b.R.BornSeq || a.R.BornSwaps != b.R.BornSwaps {
 				continue
 			}
 			vac["twin_pairs_compared"]++
